@@ -29,6 +29,7 @@ def main : IO UInt32 := do
   | ["model", "interval"] => loopState stdin stdout Interval.driverStep ⟨0, []⟩
   | ["model", "auxtable"] => loopState stdin stdout AuxTable.driverStep {}
   | ["model", "forest"] => loopState stdin stdout Forest.driverStep {}
+  | ["model", "forestops"] => loopPure stdin stdout Forest.opsDriverStep
   | ["model", "index"] => loopState stdin stdout Index.driverStep {}
   | ["model", "symscopes"] => loopState stdin stdout SymExpr.scopesDriverStep {}
   | ["model", "msg"] => loopPure stdin stdout Msg.driverStep
